@@ -1908,14 +1908,34 @@ pub fn main() {
     let mut samples = vec![];
     let mut counters = vec![0u64; 3];
     let mut digest = 0u64;
-    for (ki, cfg) in &plan {
+    // quick tier: up to three configurations are explored side by side (each level of one BFS
+    // rarely keeps all cores busy); thorough tier: one at a time (memory)
+    let width = if cli.thorough() { 1 } else { 3 };
+    let thorough = cli.thorough();
+    let mut explored = vec![];
+    for chunk in plan.chunks(width) {
+        let kinds_ref = &kinds;
+        let part: Vec<_> = std::thread::scope(|sc| {
+            let hs: Vec<_> = chunk
+                .iter()
+                .map(|(ki, cfg)| {
+                    sc.spawn(move || {
+                        let k = &kinds_ref[*ki];
+                        let lim = Limits {
+                            max_depth: cfg.max_depth,
+                            max_wall_s: if thorough { 1500.0 } else { 120.0 },
+                            ..Default::default()
+                        };
+                        (k.explore)(cfg, prop, &lim)
+                    })
+                })
+                .collect();
+            hs.into_iter().map(|h| h.join().unwrap_or_else(|_| machinery_error("an exploration thread panicked"))).collect()
+        });
+        explored.extend(part);
+    }
+    for ((ki, cfg), (ex, mins)) in plan.iter().zip(explored) {
         let k = &kinds[*ki];
-        let lim = Limits {
-            max_depth: cfg.max_depth,
-            max_wall_s: if cli.thorough() { 1500.0 } else { 120.0 },
-            ..Default::default()
-        };
-        let (ex, mins) = (k.explore)(cfg, prop, &lim);
         states += ex.states;
         transitions += ex.transitions;
         execs += ex.executions;
